@@ -141,7 +141,11 @@ func verifHarness_C16_TwoUploadsVersusWriter() {
 	}
 	rt.Go(func() {
 		blocked := f.frozenDescriptorsCount > 0
-		f.VirtualWrite(ctx, []byte{9}, 0)
+		if rt.NondetBool("the writer allocates space beyond the end (else writes)") {
+			f.VirtualAllocate(ctx, 0, 64)
+		} else {
+			f.VirtualWrite(ctx, []byte{9}, 0)
+		}
 		if blocked {
 			rt.Cover("up2:writer-blocked")
 		}
